@@ -58,6 +58,13 @@ def scenarios():
                               "bob": [("pause", 2), ("open", "s", "alice", 0, False), ("recv", "s"), ("recv", "s")]}
     S["early-close-second"] = {"alice": [("open", "s", "bob", 0, False), ("recv", "s")],
                                "bob": [("pause", 2), ("open", "s", "alice", 0, False), ("send", "s", "b1"), ("close", "s")]}
+    # a long run of queued messages (a receiver that does not drain the queue for a while)
+    S["queue-40"] = {"alice": [("open", "s", "bob", 0, False)] + [("send", "s", f"a{i}") for i in range(40)],
+                     "bob": [("open", "s", "alice", 0, False), ("pause", 2)] + [("recv", "s")] * 40}
+    # a callback endpoint turns callbacks off, closes, and re-opens the same key as a plain socket
+    S["reopen-after-callback"] = {"alice": [("open", "s", "bob", 0, False), ("recv", "s"), ("send", "s", "a1"), ("send", "s", "a2")],
+                                  "bob": [("open", "s", "alice", 0, True), ("cb_off", "s"), ("close", "s"), ("open", "s2", "alice", 0, False),
+                                          ("send", "s2", "go"), ("recv", "s2"), ("recv", "s2")]}
     S["broadcast-3"] = {"alice": [("bopen", "c", ["bob", "charlie"]), ("bsend", "a1"), ("brecv",), ("brecv",)],
                         "bob": [("bopen", "c", ["alice", "charlie"]), ("bsend", "b1"), ("brecv",), ("brecv",)],
                         "charlie": [("bopen", "c", ["alice", "bob"]), ("bsend", "c1"), ("brecv",), ("brecv",)]}
@@ -161,6 +168,8 @@ class Endpoint:
                     if isinstance(e, (vs.SchedBound, vs.SchedDeadlock)):
                         raise
                     s.record(("ret", me, k, sock.remote_app_name, sid, f"!{type(e).__name__}", s.sleep_calls.get(me, 0) - t0))
+            elif k == "cb_off":
+                sock.use_callbacks = False
             elif k == "close":
                 s.record(("call", me, "close", op[1]))
                 sock._SOCKET_HUB.disconnect(sock)
@@ -271,6 +280,9 @@ def judge(script, s: vs.Scheduler):
                 recvs.setdefault((me, remote, sid), []).append(msg)
         elif ev[0] == "callback":
             _, me, sn, remote, sid, msg = ev
+            if any(e[0] == "ret" and e[1] == me and e[2] == "close" and e[3] == sn for e in log[:i]):
+                return (f"message {msg!r} from {remote} was handed to the callback of {me}'s socket {sn!r} after that socket had been "
+                        f"closed (a newer socket on the same key never receives it)")
             recvs.setdefault((me, remote, sid), []).append(_payload_of(msg) if not isinstance(msg, str) else msg)
     # exactly once, in order, per direction and socket id
     for (rcv, snd, sid), got in recvs.items():
@@ -345,11 +357,15 @@ def cases(ctx):
     for n in names:
         k += 1
         if ctx.mine(k):
-            yield {"kind": "random", "scenario": n, "n": 300 if ctx.quick else 6000, "seed": ctx.rng.randrange(2**31)}
+            big = n in ("queue-40",)
+            yield {"kind": "random", "scenario": n, "n": (40 if big else 300) if ctx.quick else (600 if big else 6000),
+                   "seed": ctx.rng.randrange(2**31)}
     for n in names:
         k += 1
         if ctx.mine(k):
-            yield {"kind": "dfs", "scenario": n, "preemptions": 1 if ctx.quick else 2, "limit": 1500 if ctx.quick else 60000}
+            big = n in ("queue-40",)
+            yield {"kind": "dfs", "scenario": n, "preemptions": 1 if (ctx.quick or big) else 2,
+                   "limit": (150 if big else 1500) if ctx.quick else (3000 if big else 60000)}
 
 
 def run_case(ctx, case):
